@@ -203,7 +203,11 @@ pub fn parse_pnm(input: impl IntoIterator<Item = u8>) -> Result<Buf2<Color3>> {
     let mut it = input.into_iter();
     let h = Header::parse(&mut it)?;
 
-    let count = h.dims.0 * h.dims.1;
+    let count = match h.dims {
+        // A buffer with zero width cannot have a nonzero height
+        (0, 1..) => return Err(InvalidNumber),
+        (w, h) => w.checked_mul(h).ok_or(InvalidNumber)?,
+    };
     let data: Vec<Color3> = match h.format {
         BinaryPixmap => {
             let mut col = [0u8; 3];
